@@ -42,7 +42,7 @@ META = dict(
     technique='deviation-bounded file enumeration x explicit-state BFS over incremental parser-class requests on real '
               'Sourcefile objects; differential vs one-shot REGEX, FP and generator facts',
     level_text='every layout file with <= d deviations (gfortran-validated) x every history of parser-class requests up to '
-               'the depth bound (thorough: closure of the 128-set lattice for d <= 1); facts after every transition equal the '
+               'the depth bound (quick: base 3, one deviation 2; thorough: base to closure of the 128-set lattice, one deviation 4, two deviations 1); facts after every transition equal the '
                'one-shot REGEX parse; at AllClasses equal FP and the facts known by construction',
     level_note='runs directly on the implementation (every explored trace is an implementation trace); the generator and '
                'its by-construction facts are the model, bound to reality by gfortran -fsyntax-only on every file and by '
@@ -53,7 +53,7 @@ CLASSES = ['ProgramUnitClass', 'InterfaceClass', 'ImportClass', 'TypeDefClass', 
            'PragmaClass']
 ALL = frozenset(CLASSES)
 CATS = ('units', 'imports', 'typedefs', 'interfaces', 'calls')
-CPU_BUDGET = 1.5
+CPU_BUDGET = 0.5
 ATTEMPTS = 3
 
 _CFG = {}
@@ -449,15 +449,19 @@ def gf_chunk(chunk):
 
 # ------------------------------------------------------------------ driver
 def plans(quick):
+    """Per tier: deviation bound d and the request-history plan for the base file / files with one / two deviations."""
     singles = [[c] for c in CLASSES]
     pairs = [list(p) for p in itertools.combinations(CLASSES, 2)]
+    ev = singles + [CLASSES]
     if quick:
         return dict(d=1,
-                    lo=dict(events=singles + [CLASSES], depth=3),
-                    hi=None)
+                    base=dict(events=ev, depth=3),
+                    one=dict(events=ev, depth=2),
+                    two=None)
     return dict(d=2,
-                lo=dict(events=singles + [CLASSES], depth=8, shallow_events=pairs, shallow_depth=2),   # d <= 1: closure
-                hi=dict(events=singles + [CLASSES], depth=2))                                          # d == 2
+                base=dict(events=ev, depth=8, shallow_events=pairs, shallow_depth=2),   # closure of the 128-set lattice
+                one=dict(events=ev, depth=4),
+                two=dict(events=ev, depth=1))      # pair files: one-shot oracles + every single-class parse
 
 
 def run(ctx):
@@ -476,7 +480,7 @@ def run(ctx):
 
     items = []
     for d in devlist:
-        plan = pl['lo'] if len(d) <= 1 or pl['hi'] is None else pl['hi']
+        plan = pl[('base', 'one', 'two')[len(d)]]
         items.append((d, ctx.seed, plan))
     items = seeded_order(items, ctx.seed)
     # expensive closures first so that the pool drains evenly
@@ -503,7 +507,7 @@ def run(ctx):
         evaluations=trans + 2 * nfiles, distinct_nontrivial=nontriv, effective_transitions=eff,
         files=nfiles, files_not_explored_because_oneshot_regex_raises=skipped, exhaustive=True,
         bound=dict(deviations=pl['d'], switches=len(LG.MENU), values=sum(len(v) for v in LG.MENU.values()),
-                   plan_d_le_1=pl['lo'], plan_d_eq_2=pl['hi'], regex_cpu_budget_s=CPU_BUDGET),
+                   plan_base=pl['base'], plan_one_deviation=pl['one'], plan_two_deviations=pl['two'], regex_cpu_budget_s=CPU_BUDGET),
         rule='files = base layout file + every combination of <= d deviation values (distinct switches); per file BFS '
              'over histories of parser-class requests (events = 7 single classes + AllClasses [+ the 21 pairs at the '
              'first two levels in thorough, d <= 1]) merged on the requested class set; every transition is executed on a real '
